@@ -5,6 +5,7 @@ CONSTANTS
   FORWARD_WAKER = TRUE
   READY_DRAINS = TRUE
   FILTER_MODE = "filter"
+  CHAIN_MODE = "none"
 INVARIANTS TypeOK PrefixInv QueueInv DoneInv
 PROPERTIES Terminates EveryPushDelivered AllDelivered
 CHECK_DEADLOCK FALSE
